@@ -40,16 +40,35 @@ class EP:
         return self.obj
 
 
+class InjectedFactoryError(TypeError):
+    """what a factory raises when it is given an option it does not know"""
+
+
 class Factory:
-    def __init__(self, ctx, key, bad=False):
+    """flaky = None | 'raise' | 'bad': the factory fails (raises / returns a non-metamodel) exactly when it is asked
+    for option k=2 - the injected fault of this world: a failing request must leave the cached instance alone."""
+
+    def __init__(self, ctx, key, bad=False, flaky=None):
         self.calls = []
         self.key = key
         self.bad = bad
+        self.flaky = flaky
         self.made = []
+        self.ctx = ctx
+
+    def fails_for(self, kwargs):
+        return self.flaky is not None and kwargs.get("k") == 2
 
     def __call__(self, **kwargs):
         self.calls.append(dict(kwargs))
-        mm = object() if self.bad else TextXMetaModel()
+        if self.fails_for(kwargs):
+            self.ctx.fired("factory-" + self.flaky)
+            if self.flaky == "raise":
+                self.made.append(None)
+                raise InjectedFactoryError("injected: unknown option")
+            mm = object()
+        else:
+            mm = object() if self.bad else TextXMetaModel()
         self.made.append(mm)
         return mm
 
@@ -111,6 +130,9 @@ class Model:
             f = r.mmv
             if f.bad:
                 return ("bad", f, len(f.calls) + 1, dict(kwargs))
+            if f.fails_for(kwargs):
+                # the request fails; whatever was cached for the language stays cached
+                return ("raises" if f.flaky == "raise" else "bad", f, len(f.calls) + 1, dict(kwargs))
             return ("fresh", f, len(f.calls) + 1, dict(kwargs), name)
         return ("is", self.cache[name])
 
@@ -121,6 +143,7 @@ class Err:
 
 
 ERR = Err()
+RAISED = ("exc", "InjectedFactoryError")
 
 
 def run(ctx):
@@ -245,7 +268,7 @@ def _show(args):
         elif isinstance(a, GeneratorDesc):
             out.append(f"GeneratorDesc({a.language},{a.target})")
         elif isinstance(a, Factory):
-            out.append("bad-factory" if a.bad else "factory")
+            out.append("bad-factory" if a.bad else ("flaky-factory:" + a.flaky if a.flaky else "factory"))
         elif isinstance(a, TextXMetaModel):
             out.append("metamodel-instance")
         elif callable(a):
@@ -290,8 +313,9 @@ def draw_args(t, op, ctx):
     if op in ("register_language", "register_language_desc"):
         nm = t.pick(NAMES, "name")
         pat = t.pick(PATTERNS, "pattern")
-        kind = t.draw(4, "mm-kind")  # 0,1 factory; 2 instance; 3 bad factory
-        mmv = TextXMetaModel() if kind == 2 else Factory(ctx, nm, bad=(kind == 3))
+        kind = t.draw(6, "mm-kind")  # 0,1 factory; 2 instance; 3 bad factory; 4,5 factory failing for option k=2
+        mmv = TextXMetaModel() if kind == 2 else Factory(ctx, nm, bad=(kind == 3),
+                                                         flaky={4: "raise", 5: "bad"}.get(kind))
         if op == "register_language_desc":
             return [LanguageDesc(nm, pattern=pat, metamodel=mmv)]
         return [nm, pat, mmv]
@@ -439,6 +463,8 @@ def apply_real(op, a):
             return ("mms", reg.metamodels_for_file(a[0]))
     except TextXRegistrationError:
         return ERR
+    except InjectedFactoryError:
+        return RAISED
     raise AssertionError(op)
 
 
@@ -455,6 +481,8 @@ def _cmp_mm(m, e, got_mm):
         return f"factory got {f.calls[-1]}, expected {kwargs}"
     if e[0] == "bad":
         return None if got_mm is ERR else "a factory returning a non-metamodel must be refused"
+    if e[0] == "raises":
+        return None if got_mm is RAISED else "the factory's own exception must reach the caller"
     if got_mm is ERR or got_mm is not f.made[-1]:
         return "expected the fresh instance the factory just returned"
     m.cache[e[4]] = got_mm
@@ -462,6 +490,10 @@ def _cmp_mm(m, e, got_mm):
 
 
 def compare(m, exp, got):
+    if got is RAISED:
+        if isinstance(exp, tuple) and exp[0] == "mm" and exp[1] is not ERR:
+            return _cmp_mm(m, exp[1], RAISED)
+        return "the factory's exception escaped from an operation that should not have called it with that option"
     if exp is ERR or got is ERR:
         if exp is ERR and got is ERR:
             return None
